@@ -415,6 +415,22 @@ func checkCmd(opts *RunOpts, args []string) int {
 	_ = unsatCore
 	// bounded stand-ins: a violation found there is a concrete failing history on the real code
 	for _, b := range run.Bounded {
+		if b.Violation != "" && b.Kind == "determinism" {
+			name := "bounded.resolver.target_order_determinism"
+			if kf := findKnown(known, prop, name); kf != nil {
+				if ok, _ := runWitness(opts, kf); ok {
+					nKnown++
+					fmt.Printf("KNOWN-FINDING: property=%s %s [%s]\n", prop, kf.What, name)
+					continue
+				}
+			}
+			dir := filepath.Join(outRoot(opts), "replays", prop)
+			os.MkdirAll(dir, 0o755)
+			rp := filepath.Join(dir, sanitize(name)+".replay.txt")
+			os.WriteFile(rp, []byte(fmt.Sprintf("property: %s\nobligation: %s\nkind: bounded stand-in on the real machine: %s, %d re-executions each\nfailing-input: %s\n", prop, name, b.Schema, b.Bound, b.Violation)), 0o644)
+			violations = append(violations, fmt.Sprintf("VIOLATION property=%s replay=%s obligation=%s re-executions of the same mutation on the same schema differ: %s", prop, rp, name, b.Violation))
+			continue
+		}
 		if b.Violation != "" {
 			dir := filepath.Join(outRoot(opts), "replays", prop)
 			os.MkdirAll(dir, 0o755)
